@@ -218,6 +218,29 @@ TARGETS["solution_walks"] = dict(
                  calls={"self.solver.get_values(self.edge_vars)": ("solver_edge_values", _WS), "self.G.nodes()": ("nodes", List(NODE)),
                         "self.G.edges()": ("edges", List(EDGE)), "self.G.source": ("source", NODE), "self.G.sink": ("sink", NODE)}))
 
+# ---- C13: the search loops over k.  The body is first LOWERED (lower_search): building a k-model / a solver and running it become reads of an oracle --
+# `self.o_runs` (what the i-th call of SolverWrapper.optimize reports: 0 kOptimal, 1 kInfeasible, 2 kTimeLimit, 3 anything else), `self.o_n` (calls made so
+# far), `self.o_last` (what the last call reported) --, the bookkeeping of times / statistics / solutions is erased after a purity check, set_solved() and the
+# chosen model become the outputs `solved` and `chosen`; everything else goes through the ordinary translation.  This is the abstraction of Search.v.
+_S_IN = [("o_runs", List(INT)), ("o_n", INT), ("o_last", INT)]
+_S_OUT = [("o_n", INT), ("o_last", INT), ("solved", BOOL), ("chosen", INT)]
+def _search_target(file, cls, inputs, **cfg):
+    cfg.setdefault("model_ctors", []); cfg.setdefault("run_calls", []); cfg.setdefault("build_calls", []); cfg.setdefault("erase_attrs", [])
+    cfg.setdefault("erase_locals", []); cfg.setdefault("texts", {}); cfg.setdefault("solved_calls", []); cfg.setdefault("solved_attrs", [])
+    cfg.setdefault("chosen_attr", None); cfg.setdefault("chosen_range_len", None); cfg.setdefault("own_solver", False)
+    return dict(file=file, cls=cls, func="solve", params=[SELFOBJ], defaults=[], ret=BOOL, search=cfg,
+                selfobj=dict(inputs=_S_IN + [(n, INT) for n in inputs], outputs=_S_OUT, calls={}))
+TARGETS["search_mpc"] = _search_target("flowpaths/minpathcover.py", "MinPathCover", ["lb", "nedges"],
+    model_ctors=["kpathcover.kPathCover"], erase_attrs=["solve_time_start", "_solution", "solve_statistics"], erase_locals=["i_solver_options"],
+    texts={"self.get_lowerbound_k()": "lb", "self.G.number_of_edges()": "nedges"}, solved_calls=["self.set_solved()"], chosen_attr="model")
+TARGETS["search_mpcc"] = _search_target("flowpaths/minpathcovercycles.py", "MinPathCoverCycles", ["lb", "nedges"],
+    model_ctors=["kpathcovercycles.kPathCoverCycles"], erase_attrs=["solve_time_start", "_solution", "solve_statistics"], erase_locals=["i_solver_options"],
+    texts={"self.get_lowerbound_k()": "lb", "self.G.number_of_edges()": "nedges"}, solved_calls=["self.set_solved()"], chosen_attr="model")
+TARGETS["search_mgs"] = _search_target("flowpaths/mingenset.py", "MinGenSet", ["lowerbound", "nnumbers", "extra_cuts"],
+    own_solver=True, build_calls=["self._create_solver"], run_calls=["self.solver.optimize"], erase_attrs=["solve_statistics"], erase_locals=["start_time", "genset_sol"],
+    texts={"len(self.initial_numbers)": "nnumbers", "sum((len(c) - 1 for c in self.partition_constraints or []))": "extra_cuts"},
+    solved_attrs=["_is_solved"], chosen_range_len="_solution")
+
 # a query of stDiGraph on data networkx computed (condensation): the expressions below are inputs of the model
 TARGETS["is_scc_edge"] = dict(file="flowpaths/stdigraph.py", cls="stDiGraph", func="is_scc_edge", params=[SELFOBJ, NODE, NODE], defaults=[], ret=BOOL,
                               selfobj=dict(inputs=[], outputs=[],
@@ -252,6 +275,132 @@ OBJECTIVE_PRIMITIVE = dict(args="self, expr, sense='minimize'", path=[
     ("stmt", 1, "self.optimization_sense = sense"),
     ("if-test", 2, "self.external_solver == 'highs'"),
     ("if-body", 2, "self.solver.set_objective_without_solving(expr, sense=sense)")])
+
+
+STATUS_CODE = {"kOptimal": 0, "kInfeasible": 1, "kTimeLimit": 2}
+
+def lower_search(fdef, cfg, me, repo):
+    """the oracle reading of a search loop (see TARGETS["search_*"]); anything it does not recognise is left for the translator to reject"""
+    wp = os.path.join(repo, "flowpaths/utils/solverwrapper.py")
+    consts = {}
+    for c in ast.parse(open(wp).read()).body:
+        if isinstance(c, ast.ClassDef) and c.name == "SolverWrapper":
+            for n in c.body:
+                if isinstance(n, ast.Assign) and len(n.targets) == 1 and isinstance(n.targets[0], ast.Name) and isinstance(n.value, ast.Constant) and isinstance(n.value.value, str):
+                    consts["sw.SolverWrapper." + n.targets[0].id] = n.value.value
+    models = set(); txt = ast.unparse
+    pure = {"time.perf_counter", "copy.deepcopy", "sorted", "round", "float", "int", "len", "range", "sum", "dict", "list", me + ".solver.get_values"}
+    if cfg["own_solver"]: pure.add(me + ".solver.get_model_status")
+
+    def opaque_ok(e):
+        for n in ast.walk(e):
+            if isinstance(n, ast.Call):
+                if txt(n.func) in pure: continue
+                if isinstance(n.func, ast.Attribute) and isinstance(n.func.value, ast.Name) and n.func.value.id in models and n.func.attr in ("get_solution",): continue
+                return False
+            if isinstance(n, (ast.Lambda, ast.Yield, ast.YieldFrom, ast.Await, ast.NamedExpr)): return False
+        return True
+
+    def sattr(name, ctx=None):
+        return ast.Attribute(value=ast.Name(id=me, ctx=ast.Load()), attr=name, ctx=ctx or ast.Load())
+
+    def is_status(e):
+        if not (isinstance(e, ast.Call) and not e.args and not e.keywords and isinstance(e.func, ast.Attribute) and e.func.attr == "get_model_status"): return False
+        r = e.func.value
+        if cfg["own_solver"] and txt(r) == me + ".solver": return True
+        return isinstance(r, ast.Attribute) and r.attr == "solver" and isinstance(r.value, ast.Name) and r.value.id in models
+
+    class X(ast.NodeTransformer):
+        def visit_Compare(self, n):
+            if len(n.ops) == 1 and isinstance(n.ops[0], (ast.Eq, ast.NotEq)):
+                a, b = n.left, n.comparators[0]
+                for x, y in ((a, b), (b, a)):
+                    if is_status(x):
+                        name = y.value if isinstance(y, ast.Constant) and isinstance(y.value, str) else consts.get(txt(y))
+                        if name not in STATUS_CODE: raise Unsupported("a solver status compared with %s (only the optimal / infeasible / time-limit constants)" % txt(y), n)
+                        return ast.copy_location(ast.Compare(left=sattr("o_last"), ops=n.ops, comparators=[ast.Constant(value=STATUS_CODE[name])]), n)
+            return self.generic_visit(n)
+        def visit_Call(self, n):
+            if txt(n) in cfg["texts"]: return ast.copy_location(sattr(cfg["texts"][txt(n)]), n)
+            if isinstance(n.func, ast.Attribute) and n.func.attr == "is_solved" and not n.args and not n.keywords \
+                    and isinstance(n.func.value, ast.Name) and n.func.value.id in models:
+                return ast.copy_location(ast.Compare(left=sattr("o_last"), ops=[ast.Eq()], comparators=[ast.Constant(value=0)]), n)
+            if is_status(n): raise Unsupported("a solver status used other than in == / != with a status constant", n)
+            return self.generic_visit(n)
+        def visit_GeneratorExp(self, n):
+            if txt(n) in cfg["texts"]: return ast.copy_location(sattr(cfg["texts"][txt(n)]), n)
+            return self.generic_visit(n)
+
+    def stmts_of(code, at):
+        out = ast.parse(code.replace("SELF", me)).body
+        for o in out:
+            ast.copy_location(o, at)
+            for sub in ast.walk(o): ast.copy_location(sub, at)
+        return out
+    RUN = "SELF.o_last = SELF.o_runs[SELF.o_n]\nSELF.o_n = SELF.o_n + 1\n"
+
+    def target_attr(t):
+        if isinstance(t, ast.Subscript): t = t.value
+        if isinstance(t, ast.Attribute) and isinstance(t.value, ast.Name) and t.value.id == me: return t.attr
+        return None
+    def target_local(t):
+        if isinstance(t, ast.Subscript): t = t.value
+        return t.id if isinstance(t, ast.Name) else None
+
+    def erasable(st):
+        if isinstance(st, ast.Assign) and len(st.targets) == 1:
+            t = st.targets[0]
+            if (target_attr(t) in cfg["erase_attrs"] or target_local(t) in cfg["erase_locals"]) and opaque_ok(st.value) \
+                    and (not isinstance(t, ast.Subscript) or opaque_ok(t.slice)): return True
+        if isinstance(st, ast.Expr) and isinstance(st.value, ast.Call) and txt(st.value.func).startswith("utils.logger.") and opaque_ok(st.value): return True
+        if isinstance(st, ast.Expr) and isinstance(st.value, ast.Call) and txt(st.value.func) in cfg["build_calls"] \
+                and all(opaque_ok(a) for a in st.value.args) and all(opaque_ok(k.value) for k in st.value.keywords): return True
+        if isinstance(st, ast.If) and not st.orelse and isinstance(st.test, ast.Compare) and len(st.test.ops) == 1 and isinstance(st.test.ops[0], (ast.In, ast.NotIn)) \
+                and isinstance(st.test.left, ast.Constant) and isinstance(st.test.comparators[0], ast.Name) and st.test.comparators[0].id in cfg["erase_locals"] \
+                and all(erasable(b) for b in st.body): return True
+        return False
+
+    def walk(stmts):
+        out = []
+        for st in stmts:
+            if isinstance(st, ast.Assign) and len(st.targets) == 1:
+                t = st.targets[0]; v = st.value
+                if cfg["chosen_attr"] and target_attr(t) == cfg["chosen_attr"] and not isinstance(t, ast.Subscript) and isinstance(v, ast.Name) and v.id in models:
+                    out += stmts_of("SELF.chosen = %s\n" % v.id, st); continue
+                if cfg["chosen_range_len"] and target_attr(t) == cfg["chosen_range_len"] and not isinstance(t, ast.Subscript):
+                    g = v.args[0] if isinstance(v, ast.Call) and txt(v.func) == "sorted" and len(v.args) == 1 and not v.keywords else None
+                    if isinstance(g, ast.GeneratorExp) and len(g.generators) == 1 and not g.generators[0].ifs and isinstance(g.generators[0].iter, ast.Call) \
+                            and txt(g.generators[0].iter.func) == "range" and len(g.generators[0].iter.args) == 1 and opaque_ok(g.elt):
+                        out += stmts_of("SELF.chosen = %s\n" % txt(X().visit(g.generators[0].iter.args[0])), st); continue
+                    raise Unsupported("the solution is not `sorted(<expression> for i in range(k))`", st)
+                if target_attr(t) in cfg["solved_attrs"] and not isinstance(t, ast.Subscript):
+                    if not (isinstance(v, ast.Constant) and v.value is True): raise Unsupported("the solved flag set to something other than True", st)
+                    out += stmts_of("SELF.solved = True\n", st); continue
+                if isinstance(t, ast.Name) and isinstance(v, ast.Call) and txt(v.func) in cfg["model_ctors"]:
+                    kws = {k.arg: k.value for k in v.keywords}
+                    if v.args or None in kws or "k" not in kws or not all(opaque_ok(x) and not ({n.id for n in ast.walk(x) if isinstance(n, ast.Name)} & models) for a, x in kws.items() if a != "k"):
+                        raise Unsupported("construction of the k-model (keyword arguments only, k=<expression>)", st)
+                    models.add(t.id)
+                    out.append(ast.copy_location(ast.Assign(targets=[t], value=X().visit(kws["k"])), st)); continue
+            if erasable(st): continue
+            if isinstance(st, ast.Expr) and isinstance(st.value, ast.Call) and not st.value.args and not st.value.keywords:
+                c = st.value
+                if isinstance(c.func, ast.Attribute) and c.func.attr == "solve" and isinstance(c.func.value, ast.Name) and c.func.value.id in models:
+                    out += stmts_of(RUN, st); continue
+                if txt(c.func) in cfg["run_calls"]:
+                    out += stmts_of(RUN, st); continue
+                if txt(c) in cfg["solved_calls"]:
+                    out += stmts_of("SELF.solved = True\n", st); continue
+            if isinstance(st, (ast.For, ast.While, ast.If)):
+                for fld in ("iter", "test"):
+                    if hasattr(st, fld): setattr(st, fld, X().visit(getattr(st, fld)))
+                st.body = walk(st.body); st.orelse = walk(st.orelse)
+                out.append(st); continue
+            out.append(X().visit(st))
+        return out
+    fdef.body = walk(fdef.body)
+    ast.fix_missing_locations(fdef)
+    return fdef
 
 
 def check_primitives(classdef, extra=None):
@@ -454,6 +603,8 @@ class Fn:
         self.ptype = dict(zip(self.params, self.spec["params"]))
         self.selfobj = self.spec.get("selfobj")
         self.sparam = self.params[0] if self.selfobj else None
+        if self.spec.get("search"):
+            self.fdef = f = lower_search(copy.deepcopy(f), self.spec["search"], self.sparam, repo)
         if self.selfobj and self.classdef is not None:
             # calls of other methods of the same class are expanded in place (a private helper and its hand-inlined body are the same program)
             self.fdef = f = self.expand_method_calls(copy.deepcopy(f), 0)
@@ -1287,6 +1438,10 @@ class Fn:
                 if ty != NODE: raise Unsupported("str() of a value of type %s (node names are strings already)" % show(ty), e)
                 return t, NODE, g
             if n == "range":
+                if len(e.args) == 2 and not e.keywords:         # range(a, b) = a, a+1, .., b-1
+                    a_, ta, ga = self.expr(e.args[0], env); b_, tb, gb = self.expr(e.args[1], env)
+                    if ta != INT or tb != INT: raise Unsupported("range of %s, %s" % (show(ta), show(tb)), e)
+                    return "(map (Z.add %s) (py_range (Z.sub %s %s)))" % (a_, b_, a_), List(INT), ga + gb
                 if len(e.args) != 1: raise Unsupported("range with %d arguments (only range(n))" % len(e.args), e)
                 t, ty, g = self.expr(e.args[0], env)
                 if ty not in (INT, BITS): raise Unsupported("range of %s" % show(ty), e)
